@@ -210,6 +210,23 @@ def run(ctx):
             if not ok:
                 ctx.violation('copy_file: destination is not identical to the source (or the source changed)', {'size': len(payload)},
                               {'fn': 'copy_file', 'what': 'roundtrip'})
+                continue
+            # copying onto an EXISTING destination (same size, other content, written after the source; and another size) replaces it
+            for kind, other in (('same_size', bytes((b + 1) % 256 for b in payload)), ('other_size', payload + b'tail')):
+                if not payload and kind == 'same_size':
+                    continue
+                with open(dst, 'wb') as f:
+                    f.write(other)
+                ctx.case(('copy_over', kind, len(payload), payload[:8]), True)
+                ctx.count('copy_file/over_existing_' + kind)
+                try:
+                    NT.copy_file(src, dst)
+                except Exception as e:
+                    ctx.violation('copy_file onto an existing file raised %r' % e, {'size': len(payload), 'existing': kind}, {'fn': 'copy_file', 'what': 'raises'})
+                    continue
+                if open(dst, 'rb').read() != payload or open(src, 'rb').read() != payload:
+                    ctx.violation('copy_file onto an existing destination (%s as the source, other content): the destination is not identical to the source '
+                                  'afterwards' % kind.replace('_', ' '), {'size': len(payload), 'existing': kind}, {'fn': 'copy_file', 'what': 'roundtrip', 'existing': kind})
     finally:
         shutil.rmtree(tmp, ignore_errors=True)
 
